@@ -143,6 +143,9 @@ def run_job(job, rec):
             f = 10.0 ** rng.uniform(-4.5 if n <= 5000 else -3, np.log10(2.0)) if rng.random() < 0.85 else rng.uniform(4.1, 8.0)
             kw["bandwidth"] = float(rngw * f)
             rec.count("cases:user_bandwidth")
+            if n <= 1500 and rng.random() < 0.25:
+                kw["cross_validation"] = True      # both given: the bandwidth the user chose is the kernel width (cross-validation only replaces the rule of thumb)
+                rec.count("cases:user_bandwidth_with_cross_validation_flag")
             if f > 4:
                 rec.count("cases:wide_bandwidth")
         elif mode == "cv":
